@@ -105,6 +105,9 @@ func c18parse(ctx context.Context, query string) (wire.PreparedStatements, error
 			}
 		}
 	}
+	if query != "" && query[0] == 'r' {
+		return nil, errors.New("c18: the parser rejects this statement (after keeping its text)")
+	}
 	cols := wire.Columns{{Name: "c", Oid: oid.T_text, Width: -1}}
 	fn := func(ctx context.Context, w wire.DataWriter, params []wire.Parameter) error {
 		st.recheck("at a later statement callback")
@@ -311,6 +314,17 @@ func (ch c18) runCase(c *core.Ctx, env *hs.Env, L int, rng *core.Rng, idx int) {
 			var oids []uint32
 			for j := rng.Intn(5); j > 0; j-- {
 				oids = append(oids, uint32(rng.Intn(5000)))
+			}
+			if rng.Intn(6) == 0 {
+				// a statement the parser rejects - after it has kept the text (for its log, its error report);
+				// the rest of the batch is discarded, the connection goes on
+				delete(st.sentQ, q)
+				q = "r" + q[1:]
+				st.sentQ[q] = true
+				in = append(append(pg.Parse(fmt.Sprintf("s%d", m), q, oids), pg.Bind("", fmt.Sprintf("s%d", m), nil, [][]byte{[]byte("never bound")}, nil)...), pg.Sync()...)
+				c.Count("statements_rejected_by_the_parser_after_it_kept_their_text", 1)
+				shape += "Pr "
+				break
 			}
 			tag := q
 			params := [][]byte{[]byte(fmt.Sprintf("bind-%d-%d", idx, m))}
